@@ -14,20 +14,23 @@ import (
 
 // Tier describes the bounded spaces of one tier of the program × input sweep.
 type Tier struct {
-	PN       int   // pattern ASTs up to this many nodes
-	SK       int   // seed neighbourhood edits (-1 = no seeds)
-	LASCII   int   // haystack symbols over SigmaASCII
-	LBig     int   // symbols over SigmaASCII for the large P patterns (more than EmbedPN nodes); 0 = LASCII
-	LUTF8    int   // over SigmaUTF8
-	LRaw     int   // over SigmaRaw
-	EmbedW   int   // embeddings: max |w| over SigmaUTF8 (-1 = none)
-	EmbedPN  int   // embeddings are applied to P patterns with at most this many AST nodes (0 = all)
-	SeedJ    []int // right-pad lengths of the seed embeddings
-	TokL     int   // seed haystacks: sequences of ≤ TokL tokens
-	TokN     int   // token alphabet size for seeds
-	SeedEmbW int   // seed embeddings: |w| ≤ this many tokens
-	Modes    []string
-	Budget   time.Duration
+	PN           int   // pattern ASTs up to this many nodes
+	SK           int   // seed neighbourhood edits (-1 = no seeds)
+	LASCII       int   // haystack symbols over SigmaASCII
+	LBig         int   // symbols over SigmaASCII for the large P patterns (more than EmbedPN nodes); 0 = LASCII
+	LUTF8Big     int   // symbols over SigmaUTF8 for the large P patterns; 0 = LUTF8
+	LRawBig      int   // symbols over SigmaRaw for the large P patterns; 0 = LRaw
+	LUTF8        int   // over SigmaUTF8
+	LRaw         int   // over SigmaRaw
+	EmbedW       int   // embeddings: max |w| over SigmaUTF8 (-1 = none)
+	EmbedPN      int   // embeddings are applied to P patterns with at most this many AST nodes (0 = all)
+	SeedJ        []int // right-pad lengths of the seed embeddings
+	SeedEmbFirst int   // when > 0 only the first SeedEmbFirst seed patterns (the seeds themselves come first) get embeddings
+	TokL         int   // seed haystacks: sequences of ≤ TokL tokens
+	TokN         int   // token alphabet size for seeds
+	SeedEmbW     int   // seed embeddings: |w| ≤ this many tokens
+	Modes        []string
+	Budget       time.Duration
 }
 
 // Space is the materialised unit space of a tier.
@@ -105,20 +108,27 @@ func NewSpace(t Tier) *Space {
 			os.Rename(tmp, cache)
 		}
 	}
-	mk := func(lascii int) [][]byte {
+	mk := func(lascii, lutf8, lraw int) [][]byte {
 		lists := [][][]byte{space.WordList(space.SigmaASCII, lascii)}
-		if t.LUTF8 > 0 {
-			lists = append(lists, space.WordList(space.SigmaUTF8, t.LUTF8))
+		if lutf8 > 0 {
+			lists = append(lists, space.WordList(space.SigmaUTF8, lutf8))
 		}
-		if t.LRaw > 0 {
-			lists = append(lists, space.WordList(space.SigmaRaw, t.LRaw))
+		if lraw > 0 {
+			lists = append(lists, space.WordList(space.SigmaRaw, lraw))
 		}
 		return space.Union(lists...)
 	}
-	sp.HPE = mk(t.LASCII)
+	sp.HPE = mk(t.LASCII, t.LUTF8, t.LRaw)
 	sp.HP = sp.HPE
-	if t.LBig > 0 && t.LBig != t.LASCII {
-		sp.HP = mk(t.LBig)
+	if t.LBig > 0 {
+		u8, raw := t.LUTF8, t.LRaw
+		if t.LUTF8Big > 0 {
+			u8 = t.LUTF8Big
+		}
+		if t.LRawBig > 0 {
+			raw = t.LRawBig
+		}
+		sp.HP = mk(t.LBig, u8, raw)
 	}
 	if t.EmbedW >= 0 {
 		words := space.WordList(append(append([]string{}, space.SigmaUTF8...), "\xff"), t.EmbedW)
@@ -138,7 +148,7 @@ func (sp *Space) Haystacks(u int) [][]byte {
 	p := sp.Pats[u]
 	toks := space.TokensFor(p, sp.T.TokN)
 	words := space.WordList(toks, sp.T.TokL)
-	if sp.T.SeedEmbW >= 0 {
+	if sp.T.SeedEmbW >= 0 && (sp.T.SeedEmbFirst == 0 || u-sp.NP < sp.T.SeedEmbFirst) {
 		ew := space.WordList(toks, sp.T.SeedEmbW)
 		pad := []byte{'a', ' '}
 		words = space.Union(words, space.Embed(ew, pad, space.EmbedI, sp.seedJ()))
@@ -156,9 +166,9 @@ func (sp *Space) seedJ() []int {
 func (sp *Space) Bounds() map[string]any {
 	return map[string]any{
 		"pattern_ast_nodes_max": sp.T.PN, "seed_edit_distance": sp.T.SK, "patterns": len(sp.Pats), "patterns_P": sp.NP,
-		"haystack_symbols_ascii": sp.T.LASCII, "haystack_symbols_ascii_large_patterns": sp.T.LBig, "haystack_symbols_utf8": sp.T.LUTF8, "haystack_symbols_raw": sp.T.LRaw,
+		"haystack_symbols_ascii": sp.T.LASCII, "haystack_symbols_ascii_large_patterns": sp.T.LBig, "haystack_symbols_utf8_large_patterns": sp.T.LUTF8Big, "haystack_symbols_raw_large_patterns": sp.T.LRawBig, "haystack_symbols_utf8": sp.T.LUTF8, "haystack_symbols_raw": sp.T.LRaw,
 		"haystacks_per_P_pattern": len(sp.HP), "haystacks_per_small_P_pattern": len(sp.HPE), "embedding_pattern_nodes_max": sp.T.EmbedPN, "seed_embedding_right_pads": sp.seedJ(), "embedding_word_len": sp.T.EmbedW, "seed_token_alphabet": sp.T.TokN,
-		"seed_token_len": sp.T.TokL, "seed_embedding_word_len": sp.T.SeedEmbW, "modes": sp.T.Modes,
+		"seed_token_len": sp.T.TokL, "seed_embedding_word_len": sp.T.SeedEmbW, "seed_embeddings_first_n_seed_patterns": sp.T.SeedEmbFirst, "modes": sp.T.Modes,
 	}
 }
 
